@@ -361,7 +361,7 @@ func run[E any, P fields.Ptr[E]](c *mon.Ctx, f *fields.Field[E, P]) {
 		lens = append(lens, 511, 512, 513, 1000, 4097)
 	}
 	for _, n := range lens {
-		for variant := 0; variant < 2; variant++ { // 0: lattice values, 1: random
+		for variant := 0; variant < 6; variant++ { // 0: lattice values, 1: random, 2..5: accumulator boundary shapes
 			av, bv := make([]*big.Int, n), make([]*big.Int, n)
 			a, b := make([]E, n), make([]E, n)
 			for i := 0; i < n; i++ {
@@ -374,6 +374,39 @@ func run[E any, P fields.Ptr[E]](c *mon.Ctx, f *fields.Field[E, P]) {
 					av[i], bv[i] = rng.BigBelow(q), rng.BigBelow(q)
 				}
 				a[i], b[i] = e.el(av[i]), e.el(bv[i])
+			}
+			if variant >= 2 {
+				if n < 2 {
+					continue
+				}
+				// cancelling pairs (x, -x) against equal multipliers: Sum = InnerProduct = 0 with integer sums that are
+				// multiples of q; then all zero / total = q-1 / total = 1
+				for i := 0; i+1 < n; i += 2 {
+					av[i] = rng.BigBelow(q)
+					av[i+1] = mod(new(big.Int).Neg(av[i]), q)
+					bv[i] = rng.BigBelow(q)
+					bv[i+1] = bv[i]
+				}
+				if n%2 == 1 {
+					av[n-1], bv[n-1] = new(big.Int), new(big.Int)
+				}
+				switch variant {
+				case 3:
+					for i := range av {
+						av[i], bv[i] = new(big.Int), new(big.Int)
+					}
+				case 4, 5:
+					if n%2 == 0 {
+						av[n-2], bv[n-2] = new(big.Int), new(big.Int)
+					}
+					av[n-1], bv[n-1] = new(big.Int).Sub(q, one), big.NewInt(1)
+					if variant == 5 {
+						av[n-1] = big.NewInt(1)
+					}
+				}
+				for i := 0; i < n; i++ {
+					a[i], b[i] = e.el(av[i]), e.el(bv[i])
+				}
 			}
 			desc := func(op string) func() string {
 				return func() string {
